@@ -138,8 +138,8 @@ ADDED = {
  "C12": " Round 3: Cli.tla models the command-line driver (files in command-line order, FROM t::'file' and --stdin replacing them, a file that cannot be opened: one message and no record, the `processed n lines` statistic); TLC checks FilesInOrder / MessageOrRecords on it and every behaviour is one run of the real binary compared line by line.",
  "C14": " Round 3: pattern strings nested / repeated far beyond the regular-expression compiler's limits (20 000 groups), classified in a child process so that a stack overflow is an observation (crash), and Cli.tla's messages: a statement or definition file that does not parse gives one located message, exit status 1 only for the definition file.",
  "C16": " Round 3: the universe holds two NaNs of different bit patterns (43 values, 79 507 triples); PairMenu also deduplicates two-column tuples.",
- "C17": " Round 3: Cli.tla replays the records as the real process prints them on stdout in every --format (CSV header once and only with a record, one record per line, statistics line last).",
- "C18": " Round 3: a joined file of 120 lines with three keys interleaved irregularly (partners must come in joined-file order whatever index the loader builds) and, in fresh processes, tables whose names differ only in letter case queried under a third spelling.",
+ "C17": " Session.tla (the interactive loop fed from a pipe) replays the empty line that follows the several rows one input line fans out to, and its absence after an aggregate's final table. Round 3: Cli.tla replays the records as the real process prints them on stdout in every --format (CSV header once and only with a record, one record per line, statistics line last).",
+ "C18": " Session.tla: several statements / commands in one process (CREATE TABLE at run time, \\d, exit): TLC checks HistoryFree (a statement's output is a function of the statement, the tables defined so far and the input) and every session of up to 2 (thorough 3) lines is replayed on the real binary. Round 3: a joined file of 120 lines with three keys interleaved irregularly (partners must come in joined-file order whatever index the loader builds) and, in fresh processes, tables whose names differ only in letter case queried under a third spelling.",
  "C19": " Round 3: Trace_Sigint.tla validates runs of the real process interrupted by a real SIGINT (main.rs ctrl-c handler): rows are a prefix, lines processed = rows printed, an interrupted aggregate shows the table of exactly the lines consumed, status 0 and no error.",
 }
 for _pid, _t in ADDED.items():
